@@ -20,7 +20,7 @@ from egsim.seams import InjectedFault
 from egsim.props.c17 import ARG_POOL, decode_arg
 from edgegraph.structure import singleton
 
-CLASS_NAMES = ["T", "T1", "T2", "S", "F", "Z", "D"]
+CLASS_NAMES = ["T", "T1", "T2", "S", "F", "Z", "D", "P", "P1"]
 
 
 def make_classes(hook=None):
@@ -60,7 +60,20 @@ def make_classes(hook=None):
         pass
 
     D = DerivedMeta("D", (object,), body("D"))
-    return {"T": T, "T1": T1, "T2": T2, "S": S, "F": F, "Z": Z, "D": D}
+
+    # a front class whose __new__ is a factory returning an instance of one of
+    # its own subclasses (the pathlib.Path -> PosixPath pattern)
+    holder = {}
+
+    def front_new(cls, *args, **kwargs):
+        target = holder["P1"] if cls is holder["P"] else cls
+        return object.__new__(target)
+
+    P = M("P", (object,), body("P", __new__=front_new))
+    holder["P"] = P
+    P1 = M("P1", (P,), body("P1"))
+    holder["P1"] = P1
+    return {"T": T, "T1": T1, "T2": T2, "S": S, "F": F, "Z": Z, "D": D, "P": P, "P1": P1}
 
 
 class St:
@@ -131,6 +144,7 @@ class C18(engine.Property):
         "user-code-during-construction:construct",
         "construction-failed-in-init",
         "derived-metaclass-class-cleared-while-others-live",
+        "factory-new-front-class-constructed",
     ]
 
     def make_config(self, rng):
@@ -205,6 +219,8 @@ class C18(engine.Property):
                     s["probe:no-reference-held-construct-while-live"] += 1
             elif cls in st.cleared_once:
                 s["probe:construct-after-clear"] += 1
+            if cls == "P":
+                s["probe:factory-new-front-class-constructed"] += 1
             if cls in ("T1", "T2") and st.model["T"] is not None:
                 s["probe:subclass-constructed-while-parent-live"] += 1
             if cls == "T" and (st.model["T1"] or st.model["T2"]):
@@ -268,12 +284,7 @@ class C18(engine.Property):
                     st.first_args[lab] = (args, dict(kwargs))
                     st.mutations += 1
                     out = {"ret": lab}
-                    if type(obj) is not klass:
-                        v = engine.viol(
-                            "C18/instance-of-another-class",
-                            {"op": op, "type": type(obj).__name__},
-                        )
-                    elif obj.init_count != 1 or obj.init_args != (args, dict(kwargs)):
+                    if obj.init_count != 1 or obj.init_args != (args, dict(kwargs)):
                         v = engine.viol(
                             "C18/init-not-run-once-with-the-call's-arguments",
                             {"op": op, "init_count": obj.init_count},
